@@ -15,14 +15,14 @@ from . import common, driver_sched
 from .common import Report, MachineryError, SPEC
 
 MODEL = {
-    "C08": (["naive2s", "over1", "pr1", "pp"], ["naive2", "naive1", "over", "pr", "pr2", "prs"]),
+    "C08": (["naive2s", "over1", "pr1", "pp", "starter"], ["naive2", "naive1", "over", "pr", "pr2", "prs"]),
     "C17": (["naive2", "naive2s", "naive1"], []),
     "C18": (["over", "over1"], []),
     "C12": (["pr1", "pp"], ["pr", "pr2", "prs"]),
     "C16": (["pp"], []),
 }
 POLICIES = {
-    "C08": ["naive", "priority", "priority-pool", "overbook"],
+    "C08": ["naive", "priority", "priority-pool", "overbook", "starter"],
     "C12": ["priority", "priority-pool"],
     "C16": ["priority-pool"],
     "C17": ["naive"],
